@@ -91,5 +91,5 @@ def run(ctx, env):
             ok = norm(c[1]) == ep and c[2] == ew and tuple(norm(x) for x in lp) == el and not cd
             ctx.ob("R8.1", path, "atom:%s" % ep, ok,
                    "position %d: emits %s (%s bytes, %s, loop %s%s); parser reads %s (%s bytes, loop %s)" % (i, norm(c[1]), c[2], c[3], tuple(norm(x) for x in lp), (", under condition %s" % (cd,)) if cd else "", ep, ew, el))
-            ctx.ob("R8.2", path, "codec:%s" % ep, (ed, c[3]) in INVERSE, "decoder %s / encoder %s" % (ed, c[3]))
+            ctx.ob("R8.2", path, "codec:%s" % ep, (ed, c[3]) in INVERSE or (c[3] == "push" and ew == 1 and ed in ("be", "u8")), "decoder %s / encoder %s" % (ed, c[3]))
     ctx.floor("R8.1", "crate", "atoms compared", total, 57)
